@@ -410,7 +410,7 @@ def r03_8(ctx):
             ctx.ob("R03.8", f"{short(f.id)}#{seen[short(f.id)]}", guarded, f.loc(t["ln"]),
                    "the parsed number becomes a DOM node only where use_rawnumber was tested to be off" if guarded else
                    f"a parsed number is turned into a DOM node ({t['callee'].rsplit('::', 1)[-1]}) without a test of cfg.use_rawnumber: with the option on, this value loses its text (as_raw_number() is None, long literals are rounded) while its siblings keep theirs")
-    ctx.floor("R03.8", "sites turning a parsed number into a DOM node", n, 2)
+    ctx.floor("R03.8", "sites turning a parsed number into a DOM node", n, 1)
 
 
 def r03_9(ctx):
@@ -433,7 +433,7 @@ def r03_9(ctx):
                 if names and "DocumentVisitor" in f.locals[d[0]]["ty"]:
                     fields.add(names[0])
             sibs[f.name] = (fields, f)
-    ctx.floor("R03.9", "text-node methods of the DOM visitor", len(sibs), 4)
+    ctx.floor("R03.9", "text-node methods of the DOM visitor", len(sibs), 2)
     if len(sibs) < 2:
         return
     union = set().union(*[v[0] for v in sibs.values()])
